@@ -43,7 +43,7 @@ CHECKS = {
         "unordered mode no ring mutex is touched and merging happens after join under a mutex; rings are created and locked "
         "before any thread starts; no application code reaches the shared reader or the protocol's members. These are "
         "necessary conditions of frame-exactly-once/in-order/no-deadlock; breaking any of them breaks the property for some schedule."
-        + 'Also: exactly the workers 0..nthreads_-1 are created, so the modulus of the hand-over rings equals the number of workers and ring mutexes. ',
+        + 'Also: exactly the workers 0..nthreads_-1 are created, so the modulus of the hand-over rings equals the number of workers and ring mutexes; the frame budget counts the first frame of interest held by worker 0, so that in unordered mode the processed frames are the first K frames of interest under every schedule (a genuine defect here was repaired: fix 05eb3cbcb). ',
    note="Not decided: byte-identical output across thread counts, what a subclass' MergeWorker/EvalConfiguration computes "
         "exception paths (EH edges off), fairness. Deadlock freedom is "
         "argued from the verified token protocol, not model-checked."),
